@@ -34,6 +34,7 @@ class RunOutcome:
         self.mass = None
         self.draw_failed = False
         self.harness_error = None
+        self.mol_obj = None
 
     def summary(self):
         return {
@@ -95,6 +96,7 @@ def run_molecule(text, sched_kwargs, props=("C04", "C05", "C06", "C07", "C08"), 
                 out.exc = exc
                 out.exc_tb = traceback.format_exc()
                 return out
+            out.mol_obj = mol
             residues = mol.residues
             ast_res = ast.residues()
             audit = GenAudit(ast, ast_res, props=props, expect_complete=expect_complete)
@@ -108,7 +110,11 @@ def run_molecule(text, sched_kwargs, props=("C04", "C05", "C06", "C07", "C08"), 
             rng = SimRng(sched)
             out.phase = "generate"
             try:
-                res = mol.generate(rng=rng)
+                import contextlib
+                import io
+
+                with contextlib.redirect_stdout(io.StringIO()):  # the library prints debug output on some error paths
+                    res = mol.generate(rng=rng)
                 out.result = res
             except (BudgetExceeded, DrawDiverges, WallTimeout) as exc:
                 out.exc = exc
